@@ -38,6 +38,9 @@ type BoundedCheck struct {
 type Baseline struct {
 	Unclaimed map[string]string `json:"unclaimed"` // obligation name -> reason it is not claimed
 	MinObligations int          `json:"min_obligations"`
+	// Hints: solver that decided the obligation when the baseline was taken (only where it was not the first in the
+	// default order); tried first by later runs. Purely a scheduling hint.
+	Hints map[string]string `json:"hints,omitempty"`
 }
 
 type KnownFinding struct {
@@ -161,6 +164,10 @@ func runCone(w *World, cs *Contracts, cone *Cone, tier string, seed int, outDir 
 	var jobs []job
 	type coverJob struct{ fn, bg string }
 	var covers []coverJob
+	opaqueInCone := map[string]bool{}
+	fullBg := map[string]string{}
+	var lastEnc *Enc
+	defer func() { _ = lastEnc }()
 	for _, n := range w.sortedFuncNames() {
 		if !matchAny(cone.Funcs, n) || matchAny(cone.Exclude, n) {
 			continue
@@ -217,6 +224,11 @@ func runCone(w *World, cs *Contracts, cone *Cone, tier string, seed int, outDir 
 			}
 		}
 		jobs = append(jobs, job{bg, obls})
+		fullBg[n] = bg
+		for nm := range e.opaqueUsed {
+			opaqueInCone[nm] = true
+		}
+		lastEnc = e
 		// vacuity guard (every tier): everything assumed while encoding the function (preconditions, callee
 		// postconditions, loop invariants, external models) must be jointly satisfiable
 		if len(obls) > 0 {
@@ -243,6 +255,35 @@ func runCone(w *World, cs *Contracts, cone *Cone, tier string, seed int, outDir 
 			}(cj)
 		}
 		wg.Wait()
+	}
+	// facts about opaque spec functions used in this cone: proved from the definitions (everything expanded)
+	if lastEnc != nil {
+		var fobls []*Obligation
+		fe := lastEnc
+		fe.noFacts, fe.defineOpaque, fe.needB = true, true, true
+		for _, f := range cs.Facts {
+			used := false
+			for _, m := range specRefRe.FindAllStringSubmatch(f.Body.String(), -1) {
+				if opaqueInCone[m[1]] {
+					used = true
+				}
+			}
+			if !used {
+				continue
+			}
+			o := &Obligation{Name: "fact#" + f.Name, Func: "fact", Class: "fact", Desc: f.Name, Goal: fe.factText(f)}
+			if cone.wantsObl(o) {
+				fobls = append(fobls, o)
+			}
+		}
+		if len(fobls) > 0 {
+			bg := fe.backgroundO(0, false, nil)
+			for _, o := range fobls {
+				run.bgOf[o] = bg
+			}
+			jobs = append(jobs, job{bg, fobls})
+		}
+		fe.noFacts, fe.defineOpaque = false, false
 	}
 	// solve everything in one parallel pool
 	var all []*Obligation
@@ -279,7 +320,11 @@ func runCone(w *World, cs *Contracts, cone *Cone, tier string, seed int, outDir 
 			if r.Status != "unsat" || r.Obl.Guard == "" || r.Obl.Guard == "true" {
 				continue
 			}
-			k := gk{run.bgOf[r.Obl], r.Obl.Guard}
+			fb, okb := fullBg[r.Obl.Func]
+			if !okb {
+				fb = run.bgOf[r.Obl]
+			}
+			k := gk{fb, r.Obl.Guard} // reachability of the program point under everything the function assumes
 			mu.Lock()
 			_, done := seen[k]
 			if !done {
@@ -349,8 +394,9 @@ func cmdCheck(args []string) {
 	outDir := filepath.Join(verifDir, "out", cone.ID)
 	os.RemoveAll(outDir)
 	os.MkdirAll(filepath.Join(outDir, "replay"), 0o755)
-	run := runCone(w, cs, cone, *tier, seed, outDir)
 	bl := loadBaseline(cone.ID)
+	solverHints = bl.Hints
+	run := runCone(w, cs, cone, *tier, seed, outDir)
 	known := loadKnown()
 
 	violations := 0
@@ -529,14 +575,18 @@ func cmdBaseline(args []string) {
 		run := runCone(w, cs, cone, "baseline", 0, outDir)
 		old := loadBaseline(id)
 		known := loadKnown()
-		bl := &Baseline{Unclaimed: map[string]string{}}
+		bl := &Baseline{Unclaimed: map[string]string{}, Hints: map[string]string{}}
 		n := 0
 		for _, r := range run.results {
+			if r.Status == "unsat" && r.Solver != "z3-new" && r.Solver != "trivial" && r.Solver != "" {
+				bl.Hints[r.Obl.Name] = r.Solver
+			}
 			if findKnown(known, id, r.Obl.Name) != nil {
 				continue
 			}
 			if r.Status == "unsat" && r.Seconds >= 2.5 && !r.Vacuous {
 				// measured under 16-way contention: time it again on its own before deciding
+				solverHints = bl.Hints
 				r2 := solveOne(outDir, run.bgOf[r.Obl], r.Obl, "quick", 4, 0)
 				if r2.Status == "unsat" {
 					r.Seconds = r2.Seconds
